@@ -311,6 +311,24 @@ impl Scenario for C19Des {
     if violation.is_none() {
       violation = check(&case, &logs, &probes);
     }
+    // bounded liveness: the faults have stopped and the executor ran until idle
+    // (up to 600 virtual seconds): a repeating task that was never cancelled has
+    // gone on, one period at a time, until it declined
+    if violation.is_none() && idle {
+      let l = logs.lock().unwrap();
+      for (k, t) in l.iter().enumerate() {
+        if let Kind::Repeat { limit, .. } = case.tasks[k].kind {
+          if t.scheduled_at.is_some() && t.cancelled_at_stamp.is_none() && t.runs.len() < limit as usize {
+            violation = Some(Violation {
+              rule: "c19.repeat-stopped-early".into(),
+              site: "Repeat".into(),
+              detail: format!("task {} ({:?}) was never cancelled and declines only at run #{}; the executor is idle and it has run {} time(s)", k, case.tasks[k].kind, limit, t.runs.len()),
+            });
+            break;
+          }
+        }
+      }
+    }
     if violation.is_none() && !idle {
       violation = Some(Violation {
         rule: "c19.quiescence".into(),
